@@ -70,8 +70,9 @@ def from_model(st):
     return conv(st["doc"])
 
 
-NAMES = ["a", "b", "manifest", "application", "activity", "uses-sdk", "intent-filter", "x.y", "data-1"]
-ANAMES = ["x", "y", "name", "label", "theme", "value", "scheme", "host"]
+# (XML names: a letter or '_' first, then letters, digits, '.', '-', '_')
+NAMES = ["a", "b", "manifest", "application", "activity", "uses-sdk", "intent-filter", "x.y", "data-1", "_config", "__x", "a_b", "A1", "_"]
+ANAMES = ["x", "y", "name", "label", "theme", "value", "scheme", "host", "_id", "_", "a_1", "B.c-d"]
 
 
 def rand_attr(rnd, used):
